@@ -3,9 +3,11 @@ package props
 import (
 	"errors"
 	"fmt"
+	"github.com/ontio/ontology/common/simhook"
 	"net"
 	"sort"
 	"strings"
+	"sync"
 	"testing/synctest"
 
 	p2pcomm "github.com/ontio/ontology/p2pserver/common"
@@ -79,6 +81,9 @@ type c36Task struct {
 	raw     *c36Conn // the controller's end
 	rem     *c36Conn // the remote peer's end
 
+	closing bool // Close of the established connection has been called and has not returned yet
+	lockOps int // mutex acquisitions of the controller reached by this task's goroutine
+
 	// scheduler bookkeeping
 	seen      int // last state seen by the scheduler
 	startStep int
@@ -101,6 +106,21 @@ type c36World struct {
 	s     *c36Sched
 	ctrl  *cc.ConnectController
 	tasks []*c36Task
+	gids  sync.Map // goroutine id -> *c36Task: the controller-side goroutine of each task
+}
+
+// lockGate is installed as simhook.YieldFn: the controller reaches it before
+// every acquisition of its mutex (hook H7). The goroutine of a task parks
+// there like at a connection operation, so the tape also decides who gets the
+// mutex next; every other goroutine (the scheduler reading counters) passes.
+func (w *c36World) lockGate(site string, a, b int) {
+	v, ok := w.gids.Load(simkit.GoID())
+	if !ok {
+		return
+	}
+	t := v.(*c36Task)
+	t.lockOps++
+	w.s.park(t.id, 0, 1<<20+t.lockOps, "lock", nil)
 }
 
 // c36Dialer implements connect_controller.Dialer. Connect calls Dial in the
@@ -152,6 +172,7 @@ func (w *c36World) setState(t *c36Task, st int, err error) {
 // runTask is the harness stand-in for NetServer.handleClientConnection /
 // NetServer.connect followed (optionally) by the peer's Close.
 func (w *c36World) runTask(t *c36Task) {
+	w.gids.Store(simkit.GoID(), t)
 	w.s.park(t.id, 0, -2, "start", nil)
 	w.setState(t, c36Inflight, nil)
 	var conn net.Conn
@@ -199,8 +220,12 @@ func (w *c36World) closeTask(t *c36Task) {
 		return
 	}
 	t.state = c36Closed
+	t.closing = true
 	w.s.mu.Unlock()
 	_ = t.wrapped.Close()
+	w.s.mu.Lock()
+	t.closing = false
+	w.s.mu.Unlock()
 }
 
 func c36IP(addr string) string {
@@ -254,6 +279,8 @@ func runC36(c *simkit.Ctx) {
 		allowSelf := tp.Prob(1, 8)
 
 		w := &c36World{c: c, s: &c36Sched{}}
+		simhook.YieldFn = w.lockGate
+		c.Defer(func() { simhook.YieldFn = nil })
 		lg := &c36Logger{}
 		selfKey := p2pcomm.RandPeerKeyId()
 		selfInfo := &peer.PeerInfo{Id: selfKey.Id, Port: 20338, SoftVersion: p2pcomm.MIN_VERSION_FOR_DHT}
@@ -368,7 +395,22 @@ func runC36(c *simkit.Ctx) {
 				t.seen = t.state
 			}
 			accIn, accOut := int(w.ctrl.InboundsCount()), int(w.ctrl.OutboundsCount())
-			if accIn != in || accOut != out {
+			// a connection attempt between two mutex acquisitions may already be in the books without
+			// having returned, a Close that has not returned may still be in them: the books may run
+			// ahead by at most those; with nothing in the middle of an operation they must be exact
+			w.s.mu.Lock()
+			midIn, midOut := inflIn, inflOut
+			for _, t := range w.tasks {
+				if t.closing {
+					if t.inbound {
+						midIn++
+					} else {
+						midOut++
+					}
+				}
+			}
+			w.s.mu.Unlock()
+			if accIn < in || accIn > in+midIn || accOut < out || accOut > out+midOut {
 				c.Fail("count-disagrees", "established-vs-accessor", "after step %d the controller reports inbound=%d outbound=%d but %d inbound / %d outbound connections are established (accepted or dialled successfully and not closed): in[%s] out[%s]",
 					step, accIn, accOut, in, out, w.describe(true), w.describe(false))
 			}
